@@ -14,7 +14,7 @@
    uses, which also handles emergency break opportunities (`EB` items) and is `break_lines`
    when there is none (C11_break_lines_e_no_eb). *)
 From Verif Require Import Layout.LineBreak Layout.LineBreakSpec Layout.LineBreakProofs
-  Layout.LineBreakEmergency Layout.LineBreakEmergencyUnique.
+  Layout.LineBreakEmergency Layout.LineBreakEmergencyUnique Layout.LineBreakEmergencyMore.
 From Coq Require Import List ZArith QArith Bool.
 Import ListNotations.
 Open Scope Z_scope.
@@ -487,3 +487,30 @@ Print Assumptions C11_lines_stacked_decided.
 Example C11_example_nested_top_bottom :
   vline_tall_b (mkVL 0 10 [10 # 1; 10 # 1; 40 # 1; 10 # 1]) = false /\ vline_tall_b (mkVL 0 40 [10 # 1; 10 # 1; 40 # 1; 10 # 1]) = true.
 Proof. vm_compute. split; reflexivity. Qed.
+
+(* ---- overflow-wrap, final round (Layout/LineBreakEmergencyMore.v): every line holds at least
+   one piece, so there are at most as many lines as tagged pieces *)
+Theorem C11_line_count_le_e : forall avail indent items,
+  (length (break_lines_e avail indent items) <= length (tsub items))%nat.
+Proof. exact line_count_le_e. Qed.
+Print Assumptions C11_line_count_le_e.
+
+(* progress: there is no line exactly when there is no item *)
+Theorem C11_no_line_iff_e : forall avail indent items,
+  break_lines_e avail indent items = [] <-> items = [].
+Proof. exact no_line_iff_e. Qed.
+Print Assumptions C11_no_line_iff_e.
+
+(* a non-empty paragraph without forced break whose whole content fits the first line is ONE
+   line (all its pieces), with or without emergency opportunities: no needless break *)
+Theorem C11_single_line_e : forall avail indent items,
+  wf items -> items <> [] -> existsb is_hard items = false -> lw items <= avail - indent ->
+  break_lines_e avail indent items = [tsub items].
+Proof. exact single_line_e. Qed.
+Print Assumptions C11_single_line_e.
+
+(* progress: every line holds at least one item (not only a piece: no piece is empty) *)
+Theorem C11_lines_content_nonempty_e : forall avail indent items,
+  Forall (fun l => l <> []) (flat_e (break_lines_e avail indent items)).
+Proof. exact lines_content_nonempty_e. Qed.
+Print Assumptions C11_lines_content_nonempty_e.
